@@ -836,14 +836,36 @@ V_REF = {"name": "ref-commit-at-end-1worker", "sched": "end", "mode": "det", "wo
 # ---------------------------------------------------------------------------
 # nested engine (Nested.tla generator / NestedTrace.tla)
 
-def nested_stage(rep, prefix, tcfg, what, T, sizes, num, depth, maxc=6, maxe=6, persist=True, nkeys=4, kinds='{"A", "M", "C"}'):
+def nested_stage(rep, prefix, tcfg, what, T, sizes, num, depth, maxc=6, maxe=6, persist=True, nkeys=4, kinds='{"A", "M", "C"}', mask=0):
     nm = "%s-nested%d" % (prefix, T)
     wf, wn = sim_histories(rep, "Nested.tla", "Nested.cfg",
                            {"MaxC": maxc, "MaxE": maxe, "Sizes": sizes, "NKeys": nkeys, "Persist": "TRUE" if persist else "FALSE", "Kinds": kinds},
                            "Nested T=%d MaxC=%d MaxDepth=3 MaxE=%d Sizes=%s" % (T, maxc, maxe, sizes), {"cfg": {"T": T}}, nm, num, depth)
     base = len(rep.distinct)
     rep.distinct.update(range(base, base + wn))
-    hist_stage(rep, nm, ["nested-run"], "nested", "NestedTrace.tla", tcfg, wf, "full", what)
+    hist_stage(rep, nm, ["nested-run"] + (["-builtinmask", str(mask)] if mask else []), "nested", "NestedTrace.tla", tcfg, wf, "full", what)
+
+
+def nested_bfs_stage(rep, prefix, tcfg, what, only=None):
+    """Exhaustive small scope (MC_Nested): every heap shape of <= 3 containers x <= 2-3 elements, every live-handle set, every
+    operation through every live handle; each explored transition is replayed (edge mode)."""
+    quick = rep.tier == "quick"
+    plans = [("a", {"MaxC": 3, "MaxE": 2, "Sizes": "{12, 110}", "Wraps": "{0}", "Persist": "FALSE"}, 80 if quick else 2),
+             ("p", {"MaxC": 2, "MaxE": 2, "Sizes": "{12, 110}", "Wraps": "{0}", "Persist": "TRUE"}, 80 if quick else 2)]
+    if not quick:
+        plans += [("w", {"MaxC": 3, "MaxE": 2, "Sizes": "{12, 110}", "Wraps": "{0, 1}", "Persist": "FALSE"}, 6),
+                  ("s", {"MaxC": 3, "MaxE": 2, "Sizes": "{12, 60, 110}", "Wraps": "{0}", "Persist": "FALSE"}, 12)]
+    for (tag, consts, den) in plans:
+        if only and tag not in only:
+            continue
+        name = "%s-nbfs-%s" % (prefix, tag)
+        files, n, total = model_histories(rep, "MC_Nested.tla", "MC_Nested.cfg", dict(consts, EmitEdges="TRUE"),
+                                          "MC_Nested %s (all heap shapes, all handles, all ops)" % " ".join("%s=%s" % kv for kv in sorted(consts.items())),
+                                          {"cfg": {"T": 256}}, lambda ops, key: frac(key + rep.seed, 1, den), name, timeout=3000)
+        base = len(rep.distinct)
+        rep.distinct.update(range(base, base + n))
+        hist_stage(rep, name + "-edges", ["nested-run"], "nested", "NestedTrace.tla", tcfg, files, "edge", what)
+        rep.stages[name + "-edges"]["selected_of_distinct_histories"] = [n, total]
 
 
 def compact_family(rep, prefix, tcfg, what):
@@ -885,12 +907,12 @@ def compact_family(rep, prefix, tcfg, what):
                             hists.append(h)
     for parent in ("A", "M"):
         for n in (2, 3):
-            for nk in (2, 3):
+            for nk in (1, 2, 3):
                 for reload in ("crash", "dropcache"):
                     for how in ("get", "iter"):
                         for victim in range(n):
                             for key in range(1, nk + 1):
-                                for act in ("rem", "set", "add", "detach-rem", "settype"):
+                                for act in ("rem", "set", "add", "detach-rem", "settype", "settypec"):
                                     h = [["root", 1, "A"]]
                                     p = 1
                                     nxt = 2
@@ -931,6 +953,9 @@ def compact_family(rep, prefix, tcfg, what):
                                         h.append(["n.mrem", v, key, 5, False, 0])
                                     elif act == "settype":
                                         h.append(["n.settype", v, 46])
+                                    elif act == "settypec":
+                                        # a different composite type with the same key set as its siblings
+                                        h.append(["n.settype", v, 107])
                                     elif act == "rem":
                                         h.append(["n.mrem", v, key, 5, False, 0])
                                     elif act == "set":
@@ -967,7 +992,11 @@ def nested_stages(rep, prefix, tcfg, what):
         nested_stage(rep, "%s-%s" % (prefix, sizes.strip("{}").replace(", ", "_")), tcfg, what, T, sizes, num, depth, maxc, maxe)
     # same-typed composite maps with the same small key set: siblings share the compact encoding when inlined
     nested_stage(rep, prefix + "-compact", tcfg, what, 256, "{12}", 120 if quick else 1000, 100 if quick else 200, 7, 4, nkeys=2, kinds='{"C"}')
+    # every map of the heap under first-level collisions (built-in digester, first-level digest masked to one bit): children that
+    # live inside inline / external collision groups and grow or shrink through their handles
+    nested_stage(rep, prefix + "-collide", tcfg, what, 256, "{12, 40}", 100 if quick else 1000, 120 if quick else 250, 8, 6, nkeys=6, kinds='{"M", "A"}', mask=1)
     compact_family(rep, prefix, tcfg, what)
+    nested_bfs_stage(rep, prefix, tcfg, what)
     rep.exhaustive = False
 
 
@@ -1070,6 +1099,7 @@ def check_C13(rep):
     what = "iteration does not yield the container's elements once in canonical order"
     array_probe_stages(rep, "c13", "C13", what, "iter,mutiter,partial")
     map_probe_stages(rep, "c13", "C13", what, "iter,mutiter,partial")
+    deep_map_probe_stage(rep, "c13", "C13", what, "iter,mutiter")
     rep.exhaustive = False
 
 
@@ -1352,10 +1382,11 @@ def check_C20(rep):
 def deep_map_stage(rep, prefix, cfgname, what):
     """Maps with three slab levels (>= ~150 keys at slab 256): grow silently, then record a tail with persistence events."""
     quick = rep.tier == "quick"
-    depth, nkeys, num = (700, 400, 3) if quick else (900, 500, 40)
+    depth, nkeys, num = (300, 330, 4) if quick else (600, 700, 40)
     nm = prefix + "-deepmap"
+    # large values: two or three entries per slab, so that three slab levels are reached with ~120 keys
     wf, wn = sim_histories(rep, "MC_MapWalk.tla", "MC_MapWalk.cfg",
-                           {"Keys": keyset(nkeys), "DigMode": '"spread"', "KSz": 5, "VSizes": "{12, 40}", "Persist": "TRUE", "AllowPop": "FALSE",
+                           {"Keys": keyset(nkeys), "DigMode": '"spread"', "KSz": 5, "VSizes": "{60, 101}", "Persist": "TRUE", "AllowPop": "FALSE",
                             "GrowUntil": depth - 60, "ShrinkFrom": 1000000},
                            "MC_MapWalk %d keys, growth then churn with persistence events (3 slab levels)" % nkeys,
                            {"cfg": {"T": 256, "limit": 255}}, nm, num, depth, workers=4)
@@ -1364,13 +1395,31 @@ def deep_map_stage(rep, prefix, cfgname, what):
     hist_stage(rep, nm, ["map-run", "-tail", "70"], "map", "MapTrace.tla", "MapTrace_%s.cfg" % cfgname, wf, "tail", what)
 
 
+def deep_map_probe_stage(rep, prefix, cfgname, what, probes):
+    """Probes (iterator flavours, mutable iteration, partial loads, bulk build) at the end of growth walks that reach three slab levels."""
+    quick = rep.tier == "quick"
+    depth, nkeys, num = (150, 220, 3) if quick else (400, 500, 40)
+    nm = prefix + "-deepmap-probes"
+    wf, wn = sim_histories(rep, "MC_MapWalk.tla", "MC_MapWalk.cfg",
+                           {"Keys": keyset(nkeys), "DigMode": '"spread"', "KSz": 5, "VSizes": "{60, 101}", "AllowPop": "FALSE",
+                            "GrowUntil": depth, "ShrinkFrom": 1000000},
+                           "MC_MapWalk %d keys, growth walks of %d inserts (3 slab levels), probes at the end" % (nkeys, depth),
+                           {"cfg": {"T": 256, "limit": 255}}, nm, num, depth, workers=4)
+    base = len(rep.distinct)
+    rep.distinct.update(range(base, base + wn))
+    hist_stage(rep, nm, probe_cmd("map-run", probes, rep) + ["-tail", "2"], "map", "MapTrace.tla", "MapTrace_%s.cfg" % cfgname, wf, "tail", what)
+
+
 def check_C03(rep):
     rep.rule = ("(a) storage level: SlabStorage closure, every explored history replayed, commit / recreate / retrieve events strict, "
                 "BaseOnlyInCommit + TempNeverWritten + CommitOK + DropReverts; (b) container level: TLC-explored array histories with "
                 "every placement of commit / drop cache / crash between operations (all shapes up to 3-4 elements) and simulated "
                 "array and map walks with such events: after every successful commit a brand-new storage over a copy of the ledger "
                 "must reconstruct exactly the model content from the registers alone; the ledger call counter must not move outside "
-                "commits; no call may carry the zero address; a crash must restore the last committed content")
+                "commits; no call may carry the zero address; a crash must restore the last committed content; after EVERY operation every "
+                "slab held in the read cache and not pending in the write set must encode to exactly its register (CacheCoherent: an in-place "
+                "change that never reached the write set would be skipped by the next commit); (c) the same for nested-container histories "
+                "(every heap shape of <= 2 containers x every placement of commit / cache drop / crash, and simulated walks)")
     quick = rep.tier == "quick"
 
     def sel(ops, key):
@@ -1380,6 +1429,11 @@ def check_C03(rep):
     storage_stage(rep, "c03-storage-edges", "SlabStorageTrace_C03.cfg", files, "edge")
     persist_stages(rep, "c03", "C03", "ledger does not hold the last committed state")
     deep_map_stage(rep, "c03", "C03", "ledger does not hold the last committed state (3-level map)")
+    # nested containers: every heap shape of <= 2 containers with every placement of commit / cache drop / crash, and walks
+    what = "ledger does not hold the last committed state (nested containers)"
+    nested_bfs_stage(rep, "c03", "NestedTrace_C03.cfg", what, only=("p",))
+    nested_stage(rep, "c03", "NestedTrace_C03.cfg", what, 256, "{12, 60, 110}", 60 if quick else 800, 100 if quick else 200, 6, 6)
+    nested_stage(rep, "c03-collide", "NestedTrace_C03.cfg", what, 256, "{12, 40}", 40 if quick else 600, 120 if quick else 250, 8, 6, nkeys=6, kinds='{"M", "A"}', mask=1)
 
 
 def check_C07(rep):
